@@ -7,6 +7,7 @@ package main
 //   (c04schema N <schema>)
 //   (c04 N (meta valid|mutant "operator/variant" (feat "tag"…) "query text") <doc> <opname> (go t|f "stage" "family" "msg"))
 //   (c04merge N <doc-before> <doc-after>|(fail "stage" "msg"))
+//   (c04overlap N <doc normalised by Go> t|f)      verdict of the FieldSelectionMerging rule run alone
 
 import (
 	"bufio"
@@ -75,7 +76,7 @@ func trunc(s string, n int) string {
 }
 
 // observe runs Go on the text and renders the case line
-func observe(e *env, text string, own *Doc, opName string, kind, opLabel string, feats []string, st *stats) string {
+func observe(e *env, text string, own *Doc, opName string, kind, opLabel string, feats []string, st *stats) (line string, overlap string) {
 	docSexp := ""
 	stage := ""
 	msg := ""
@@ -96,6 +97,9 @@ func observe(e *env, text string, own *Doc, opName string, kind, opLabel string,
 		}
 		a = admit(e.gs, text, opName, "", false)
 		stage, msg = a.Stage, a.Message
+		if a.Norm1Sexp != "" && (a.Overlap == "t" || a.Overlap == "f") {
+			overlap = common.L("c04overlap", common.I(e.id), a.Norm1Sexp, a.Overlap)
+		}
 	}
 	accepted := stage == "" && a.Accepted
 	fam := family(stage, msg)
@@ -131,7 +135,14 @@ func observe(e *env, text string, own *Doc, opName string, kind, opLabel string,
 		on = common.QS(opName)
 	}
 	return common.L("c04", common.I(e.id), common.L("meta", kind, common.QS(opLabel), common.L(fl...), common.QS(text)), docSexp, on,
-		common.L("go", common.B(accepted), common.QS(stage), common.QS(fam), common.QS(trunc(msg, 200))))
+		common.L("go", common.B(accepted), common.QS(stage), common.QS(fam), common.QS(trunc(msg, 200)))), overlap
+}
+
+func emit2(out *common.Out, line, overlap string) {
+	out.Line(line)
+	if overlap != "" {
+		out.Line(overlap)
+	}
 }
 
 func cmdGen(args map[string]string) {
@@ -161,7 +172,8 @@ func cmdGen(args map[string]string) {
 		if r.Chance(45, 100) {
 			gd := genValidDoc(r, e.schema, "")
 			st.PerKind[gd.kind]++
-			out.Line(observe(e, gd.doc.Text(), gd.doc, gd.opName, "valid", "", gd.feats, st))
+			l1, l2 := observe(e, gd.doc.Text(), gd.doc, gd.opName, "valid", "", gd.feats, st)
+			emit2(out, l1, l2)
 			continue
 		}
 		// mutants: operators in round-robin so that each family is covered evenly
@@ -184,7 +196,8 @@ func cmdGen(args map[string]string) {
 			}
 			opIdx++
 			st.PerKind[gd.kind]++
-			out.Line(observe(e, m.doc.Text(), m.doc, gd.opName, "mutant", op.name+"/"+variant, gd.feats, st))
+			l1, l2 := observe(e, m.doc.Text(), m.doc, gd.opName, "mutant", op.name+"/"+variant, gd.feats, st)
+			emit2(out, l1, l2)
 			break
 		}
 	}
@@ -223,6 +236,9 @@ func cmdMerge(args map[string]string) {
 			after = common.L("fail", common.QS(a.Stage), common.QS(trunc(a.Message, 200)))
 		}
 		out.Line(common.L("c04merge", common.I(e.id), before, after))
+		if a.Accepted && (a.Overlap == "t" || a.Overlap == "f") {
+			out.Line(common.L("c04overlap", common.I(e.id), after, a.Overlap))
+		}
 	}
 	_ = st
 }
@@ -307,7 +323,8 @@ func cmdCorpus(args map[string]string) {
 		if label == "valid" {
 			kind, label = "valid", ""
 		}
-		out.Line(observe(e, items[1], nil, items[2], kind, label, []string{"corpus"}, st))
+		l1, l2 := observe(e, items[1], nil, items[2], kind, label, []string{"corpus"}, st)
+		emit2(out, l1, l2)
 	}
 }
 
